@@ -228,7 +228,7 @@ def run(ck):
     cases = [ck.replaying["case"]] if ck.replaying else gen_cases(ck)
     reqs, pending, keep = [], [], []
     for case in cases:
-        keep.append(run_case(ck, case, reqs, pending))
+        keep.append(ck.guard(case, run_case, ck, case, reqs, pending))
     resps = ck.driver(reqs)
     for (kind, case, a, b), resp in zip(pending, resps):
         if kind == "fm":
